@@ -809,71 +809,53 @@ def run(repo, rep, tier):
         return out
 
     r2.sites += 3
-    en, hn = fn('_eq_name'), fn('_hash_name')
-    ev, hv = last_return(en), last_return(hn)
-    em, hm = fold_methods(ev), fold_methods(hv)
-    ok = isinstance(ev, ast.Compare) and len(em) == 2 and em[0] == em[1] \
-        and len(hm) == 1 and hm[0] == em[0] and em[0] in ('lower',
-                                                           'casefold')
-    r2.ob(ok, 'utils:name-pair', {'_eq_name': norm(ev), '_hash_name':
-                                  norm(hv)})
-    if not ok:
-        rep.finding(r2, '_eq_name/_hash_name', norm(ev) + ' / ' + norm(hv),
-                    'name-normalisation', UTL, en.node.lineno,
-                    '_eq_name and _hash_name do not apply the same case '
-                    'folding to both operands / the hashed value')
-    ei, hi = fn('_eq_item'), fn('_hash_item')
-    ev, hv = last_return(ei), last_return(hi)
-    ok = isinstance(ev, ast.Compare) and len(ev.ops) == 1 and \
-        isinstance(ev.ops[0], ast.Eq) and not fold_methods(ev) and \
-        isinstance(hv, ast.Call) and dotted(hv.func) == 'hash' and \
-        not fold_methods(hv)
-    r2.ob(ok, 'utils:item-pair', {'_eq_item': norm(ev), '_hash_item':
-                                  norm(hv)})
-    if not ok:
-        rep.finding(r2, '_eq_item/_hash_item', norm(ev) + ' / ' + norm(hv),
-                    'item-normalisation', UTL, ei.node.lineno,
-                    '_eq_item/_hash_item are not plain ==/hash delegation')
-    ed, hd = fn('_eq_dict'), fn('_hash_dict')
-    ev, hv = last_return(ed), last_return(hd)
-    ok = isinstance(ev, ast.Compare) and len(ev.ops) == 1 and \
-        isinstance(ev.ops[0], ast.Eq) and isinstance(hv, ast.Call) and \
-        dotted(hv.func) == 'hash' and not fold_methods(ev) and \
-        not fold_methods(hv)
-    r2.ob(ok, 'utils:dict-pair', {'_eq_dict': norm(ev), '_hash_dict':
-                                  norm(hv)})
-    if not ok:
-        rep.finding(r2, '_eq_dict/_hash_dict', norm(ev) + ' / ' + norm(hv),
-                    'dict-normalisation', UTL, ed.node.lineno,
-                    '_eq_dict/_hash_dict are not plain ==/hash delegation')
+    en, ei, ed = fn('_eq_name'), fn('_eq_item'), fn('_eq_dict')
     # every way an equality helper answers for two values that are not
     # None is one comparison of the whole (equally normalised) values - an
     # additional path that compares piecewise (`all(... zip(a, b))`) is
     # equal for values the matching hash helper hashes differently
     from ..paths import return_paths as _rp
     from ..cfg import GuardWalker as _GW
+    whole_cmp = {}
     for f in (en, ei, ed):
         ps_ = [p_ for p_ in f.params]
         if len(ps_) != 2:
             continue
         for pth in _rp(f, max_paths=64, inline=False) or []:
             atoms = [a for t0, p0 in pth.facts for a in _GW._atoms(t0, p0)]
-            if any(pol and norm(t) in (ps_[0] + ' is None',
-                                       ps_[1] + ' is None')
-                   for t, pol in atoms):
-                continue            # None handling
             v = pth.resolve(pth.value) if pth.value is not None else None
+
+            def known_not_none(pn):
+                return any(
+                    (norm(t) == pn + ' is None' and not pol) or
+                    (norm(t) == pn + ' is not None' and pol)
+                    for t, pol in atoms)
+            if not (known_not_none(ps_[0]) and known_not_none(ps_[1])):
+                # None handling: the answer is made of `is None` tests only
+                def none_logic(e):
+                    if isinstance(e, ast.Constant):
+                        return isinstance(e.value, bool)
+                    if isinstance(e, ast.BoolOp):
+                        return all(none_logic(x) for x in e.values)
+                    if isinstance(e, ast.UnaryOp) and \
+                            isinstance(e.op, ast.Not):
+                        return none_logic(e.operand)
+                    return isinstance(e, ast.Compare) and \
+                        len(e.ops) == 1 and \
+                        isinstance(e.ops[0], (ast.Is, ast.IsNot)) and \
+                        isinstance(e.left, ast.Name) and \
+                        e.left.id in ps_ and \
+                        isinstance(e.comparators[0], ast.Constant) and \
+                        e.comparators[0].value is None
+                if v is not None and none_logic(v):
+                    continue
             r2.sites += 1
             whole = isinstance(v, ast.Compare) and len(v.ops) == 1 and \
                 isinstance(v.ops[0], ast.Eq) and \
                 norm(v.left).replace(ps_[0], '\0') == \
                 norm(v.comparators[0]).replace(ps_[1], '\0')
-            if isinstance(v, ast.Constant) and v.value is False and any(
-                    (not pol) and norm(t) in (ps_[0] + ' is None',
-                                              ps_[1] + ' is None')
-                    for t, pol in atoms) and any(
-                    pol and ' is None' in norm(t) for t, pol in atoms):
-                whole = True
+            if whole:
+                whole_cmp.setdefault(f.name, v)
             r2.ob(whole, 'utils:%s:path' % f.name,
                   {'returns': norm(v, 80) if v is not None else None})
             if not whole:
@@ -887,14 +869,44 @@ def run(repo, rep, tier):
                             'can compare equal' % (
                                 f.name, norm(v, 60) if v is not None
                                 else 'None'))
-    # None handling in _eq_name/_eq_item: `if x1 is None: return x2 is None`
-    for f in (en, ei):
-        txt = [norm(s) for s in f.body]
-        ok = any(t.startswith('if ') and 'is None' in t for t in txt[:2])
-        r2.ob(ok, 'utils:%s-none' % f.name)
-        if not ok:
-            rep.finding(r2, f.qualname, 'None handling', 'none', UTL,
-                        f.node.lineno, 'None operands are not handled first')
+    en, hn = fn('_eq_name'), fn('_hash_name')
+    ev, hv = whole_cmp.get('_eq_name', last_return(en)), last_return(hn)
+    em, hm = fold_methods(ev), fold_methods(hv)
+    ok = isinstance(ev, ast.Compare) and len(em) == 2 and em[0] == em[1] \
+        and len(hm) == 1 and hm[0] == em[0] and em[0] in ('lower',
+                                                           'casefold')
+    r2.ob(ok, 'utils:name-pair', {'_eq_name': norm(ev), '_hash_name':
+                                  norm(hv)})
+    if not ok:
+        rep.finding(r2, '_eq_name/_hash_name', norm(ev) + ' / ' + norm(hv),
+                    'name-normalisation', UTL, en.node.lineno,
+                    '_eq_name and _hash_name do not apply the same case '
+                    'folding to both operands / the hashed value')
+    ei, hi = fn('_eq_item'), fn('_hash_item')
+    ev, hv = whole_cmp.get('_eq_item', last_return(ei)), last_return(hi)
+    ok = isinstance(ev, ast.Compare) and len(ev.ops) == 1 and \
+        isinstance(ev.ops[0], ast.Eq) and not fold_methods(ev) and \
+        isinstance(hv, ast.Call) and dotted(hv.func) == 'hash' and \
+        not fold_methods(hv)
+    r2.ob(ok, 'utils:item-pair', {'_eq_item': norm(ev), '_hash_item':
+                                  norm(hv)})
+    if not ok:
+        rep.finding(r2, '_eq_item/_hash_item', norm(ev) + ' / ' + norm(hv),
+                    'item-normalisation', UTL, ei.node.lineno,
+                    '_eq_item/_hash_item are not plain ==/hash delegation')
+    ed, hd = fn('_eq_dict'), fn('_hash_dict')
+    ev, hv = whole_cmp.get('_eq_dict', last_return(ed)), last_return(hd)
+    ok = isinstance(ev, ast.Compare) and len(ev.ops) == 1 and \
+        isinstance(ev.ops[0], ast.Eq) and isinstance(hv, ast.Call) and \
+        dotted(hv.func) == 'hash' and not fold_methods(ev) and \
+        not fold_methods(hv)
+    r2.ob(ok, 'utils:dict-pair', {'_eq_dict': norm(ev), '_hash_dict':
+                                  norm(hv)})
+    if not ok:
+        rep.finding(r2, '_eq_dict/_hash_dict', norm(ev) + ' / ' + norm(hv),
+                    'dict-normalisation', UTL, ed.node.lineno,
+                    '_eq_dict/_hash_dict are not plain ==/hash delegation')
+    # (None handling of _eq_name/_eq_item is part of the path rule above)
 
     # ---- R2: NocaseDict --------------------------------------------------
     ncd = repo.cls('pywbem/_vendor/nocasedict/_nocasedict.py', 'NocaseDict')
